@@ -5,11 +5,13 @@
 //                       them on a following line "bits rm=<one char per rule> ns=<one char per namespace>"
 //   piter               (re)initialise the persistent, position-keeping block iterator over the list set by
 //                       `blocks` (h_scan command) with the answers set by `notready` (per call: '1' = not ready)
-//   nulldata <i>        fetch_data of block i returns NULL
+//   nulldata <i>|-      fetch_data of block i returns NULL ; - clears
 //   pscan               ONE call of yr_scanner_scan_mem_blocks with the persistent iterator
 //   ploop <max>         repeat pscan while it returns ERROR_BLOCK_NOT_READY (at most max calls)
 //   prscan <flags>      one call of yr_rules_scan_mem_blocks (fresh internal scanner) with the persistent iterator
 //   pbits               print the last snapshot and forget it
+//   pmode naive|keep    naive: first() sets its position to block 0 before it knows whether it is ready (and
+//                       next() pre-increments), as a straightforward iterator would; keep (default): see below
 // Iterator semantics ("position keeping"): the iterator remembers the index of the last block it delivered
 // (-1 at piter).  first(): if ready deliver block 0.  next(): if ready deliver block last+1.  A not-ready answer
 // changes nothing but last_error.  Hence next() after a not-ready first() delivers block 0: this is what an
@@ -30,6 +32,7 @@ static struct
   int nulldata[64];
   char log[16384];
   int loglen;
+  int naive;                      // pmode naive: first() rewinds before it knows whether it is ready
   int snap;                       // snapshot taken
   char rm[4096], ns[4096];
   HS* s;
@@ -56,6 +59,7 @@ static YR_MEMORY_BLOCK* p_call(YR_MEMORY_BLOCK_ITERATOR* it, int is_first)
   char kind = is_first ? 'f' : 'n';
   int c = s->nr_call;
   if (c < s->nr_len) s->nr_call++;
+  if (P.naive && is_first) P.last = 0;   // "rewind, then try": next() will pre-increment to block 1
   if (c < s->nr_len && s->notready[c] == '1')
   {
     it->last_error = ERROR_BLOCK_NOT_READY;
@@ -130,7 +134,12 @@ static void proto_cmd(HS* s, char* line)
     s->nr_call = 0;
     s->msg_index = 0;
   }
-  else if (!strcmp(c, "nulldata")) P.nulldata[atoi(tok(&p)) & 63] = 1;
+  else if (!strcmp(c, "nulldata"))
+  {
+    char* t = tok(&p);
+    if (!strcmp(t, "-")) memset(P.nulldata, 0, sizeof P.nulldata);
+    else P.nulldata[atoi(t) & 63] = 1;
+  }
   else if (!strcmp(c, "pscan")) { p_one(s, 0, 0); p_bits(s); }
   else if (!strcmp(c, "prscan")) { p_one(s, 1, atoi(tok(&p))); p_bits(s); }
   else if (!strcmp(c, "ploop"))
@@ -141,6 +150,7 @@ static void proto_cmd(HS* s, char* line)
     p_bits(s);
   }
   else if (!strcmp(c, "pbits")) p_bits(s);
+  else if (!strcmp(c, "pmode")) P.naive = !strcmp(tok(&p), "naive");
   else do_cmd(s, line);
   free(copy);
 }
@@ -158,6 +168,11 @@ static void run_case(void* arg, FILE* out)
     if (s->stop && strncmp(cs->lines[i], "force ", 6) != 0) continue;
     proto_cmd(s, cs->lines[i]);
     fflush(out);
+  }
+  if (__lsan_do_recoverable_leak_check)
+  {
+    int leaks = __lsan_do_recoverable_leak_check();
+    fprintf(out, "leakcheck %d\n", leaks);
   }
 }
 
